@@ -150,3 +150,51 @@ def show_piece(p):
     if p["kind"] == "call":
         return "%s%s: %s(%s)" % (rng, g, p["name"], ", ".join(sym.show(a) for a in p["args"] if a is not None))
     return "%s%s: <%s>" % (rng, g, p["kind"])
+
+
+def fold_accumulators(ps):
+    """Normalise  `T acc = init; loop: acc (op)= x; ...; *dst = acc;`  to the statements on *dst itself:
+    `*dst = init; loop: *dst (op)= x`.  Applies when a store's value is exactly a scalar local that is only declared and
+    accumulated (no other use between), and the final store is unconditional and outside loops."""
+    out = list(ps)
+    changed = True
+    while changed:
+        changed = False
+        for k, p in enumerate(out):
+            if p["kind"] != "store" or p["op"] != "=" or p["loops"] or p["guards"]:
+                continue
+            val = p["val"]
+            if not (isinstance(val, tuple) and val and val[0] == "var"):
+                continue
+            vid = val[2]
+            loc = [(j, q) for j, q in enumerate(out) if q["kind"] == "local" and q.get("id") == vid and j < k]
+            if not loc or loc[0][1]["op"] != "decl" or any(q["op"] not in ("decl", "+=", "-=") for _, q in loc):
+                continue
+            # the local must not be read anywhere else before the final store
+            used = False
+            for j, q in enumerate(out):
+                if j == k or (j, q) in loc:
+                    continue
+                terms = [q.get("val")] + list(q.get("args") or []) + [q.get("lv")]
+                if any(t is not None and sym.contains(t, val) for t in terms):
+                    used = True
+            if used:
+                continue
+            new = []
+            for j, q in enumerate(out):
+                if j == k:
+                    continue
+                if (j, q) in loc:
+                    r = dict(q)
+                    r["kind"] = "store"
+                    r["lv"] = p["lv"]
+                    r["op"] = "=" if q["op"] == "decl" else q["op"]
+                    r["folded_from"] = q.get("name")
+                    r.setdefault("t", p.get("t", ""))
+                    new.append(r)
+                else:
+                    new.append(q)
+            out = new
+            changed = True
+            break
+    return out
